@@ -8,7 +8,7 @@ CFT = P + "cache_file_from_transport"
 
 
 def run(chk, prog):
-    chk.rules_live = ["R1", "R2", "R3", "R4"]
+    chk.rules_live = ["R1", "R3", "R4", "R5"]
     chk.explanation = (
         "Who-may-write + template rules over cache.rs: target files are written only through "
         "save_target (so the verified, atomic path of C06/C08 applies) with the digest prefix exactly "
@@ -109,6 +109,10 @@ def run(chk, prog):
                         "cache() returns Ok on a path that did not copy the metadata", path=cctx.describe_path(p))
     r3_chain(chk, prog)
     r4_agreement(chk, prog)
+    # R5: the path every cached target takes (save_target) — shared with C08
+    from . import c08
+    from .c06 import SubCheck
+    c08.run(SubCheck(chk, "R5"), prog)
 
 
 def r3_chain(chk, prog):
